@@ -855,6 +855,8 @@ Proof.
   symmetry. apply msg_eqb_eq; auto.
 Qed.
 
+Definition is_cmd_op (o : op) : bool := match o with OCmd _ _ => true | _ => false end.
+
 (** H2: what the device emits spontaneously matches no command filter. *)
 Definition no_resp (c : chunk) : Prop := filter (isr FC) (msgs_of c) = [].
 
@@ -1133,10 +1135,13 @@ Proof.
     + destruct Hs. constructor; unfold a_finish; cbn; auto.
       * destruct (a_script s); cbn; auto. inversion rs_script0; auto.
       * apply a_begin_cmd.
-      * apply routed_snoc_ok; auto. intro Ho. specialize (Hq Ho). rewrite Epc in Hq. cbn in Hq.
+      * apply routed_snoc_ok; auto. intro Ho. specialize (Hq Ho).
+        assert (Hq' : (W s <= 1)%nat) by (destruct (waiting s); lia).
         fold (cur_op s). unfold wt in EW. rewrite Hr in EW. destruct (own (cur_op s) m); auto. lia.
     + cbn [returned a_finish set_a_pc set_a_script set_returned]. rewrite all_ok_snoc. intro Ho.
-      apply andb_true_iff in Ho as [Ho _]. specialize (Hq Ho). rewrite Epc in Hq. cbn in Hq.
+      apply andb_true_iff in Ho as [Ho _]. specialize (Hq Ho).
+      assert (Hq' : (W s <= 1)%nat) by (destruct (waiting s); lia).
+      match goal with |- context [waiting ?x] => change (waiting x) with (waiting (a_finish cfg (set_returned (returned s ++ [(hd OLock (a_script s), ROk m)]) s))) end.
       rewrite wait_finish.
       assert (Hz : wsum (cur_op s) rest = 0%nat /\ wsum (cur_op s) (a_vbuf s) = 0%nat).
       { unfold wt in EW. rewrite Hr in EW. destruct (own (cur_op s) m); lia. }
@@ -1159,27 +1164,44 @@ Proof.
   - (* V0 *) pcm s Epc H.
   - (* V1 *)
     destruct H as (Hs & Hq).
-    destruct (rs_cmd _ Hs) as (fc & r & t & Esc); [rewrite Epc; reflexivity|].
-    assert (Hwf : wf_cmd (OCmd fc r)).
-    { pose proof (rs_script _ Hs) as F. rewrite Esc in F. inversion F; auto. }
-    assert (Hfc : In (cur_fc s) FC).
-    { unfold cur_fc. rewrite Esc. destruct Hwf; auto. }
-    pose proof (wsum_reaction fc r Hwf) as Hone.
-    unfold v_next, cur_react. rewrite Esc.
-    destruct (msgs_of (concat r)) as [|m0 rest] eqn:Ems.
-    + cbn in Hone. discriminate.
-    + split.
-      * destruct Hs; constructor; cbn; auto; intros; try discriminate. inversion H; subst; auto.
-      * cbn [returned a_pc set_a_pc set_a_vbuf set_filt set_emitted]. intro Ho. specialize (Hq Ho).
-        rewrite Epc in Hq. cbn in Hq. cbn [wait_phase].
-        assert (E : forall X, (W (set_a_pc (A_VP P1 m0) (set_a_vbuf rest (set_filt (Some (cur_fc s)) (set_emitted X s))))
-                    <= W s + wsum (cur_op s) (m0 :: rest))%nat).
-        { intro X. w_tac; rewrite ?Epc; w_tac. }
-        match goal with |- (W (set_a_pc _ (set_a_vbuf _ (set_filt _ (set_emitted ?X _)))) <= _)%nat => specialize (E X) end.
-        unfold W in *. unfold cur_op at 3 in E. rewrite Esc in E. cbn [hd] in E. rewrite Hone in E. lia.
+    destruct (rs_cmd _ Hs) as (o & t & Esc & Ho); [rewrite Epc; reflexivity|].
+    assert (Hwf : wf_cmd o) by (pose proof (rs_script _ Hs) as F; rewrite Esc in F; inversion F; auto).
+    assert (Hfk : forall f, cur_fk s = Some f -> In f FC).
+    { intros f Efk. unfold cur_fk in Efk. rewrite Esc in Efk. destruct o; cbn in *; try discriminate.
+      - inversion Efk; subst. destruct Hwf; auto.
+      - destruct Hwf as (Hk & _). auto. }
+    unfold waiting in Hq. rewrite Epc in Hq. cbn [wait_phase andb] in Hq.
+    assert (Hone : (wsum o (msgs_of (concat (cur_react s))) <= 1)%nat
+                   /\ (is_cmd_op o = false -> wsum o (msgs_of (concat (cur_react s))) = 0%nat)).
+    { unfold cur_react. rewrite Esc. destruct o as [fc r|k r| | | |]; try discriminate.
+      - rewrite (wsum_reaction fc r Hwf). split; [lia|discriminate].
+      - destruct Hwf as (_ & Hnr). rewrite (wsum_no_resp _ _ Hnr). split; auto. }
+    destruct Hone as (Hone & Hzero).
+    assert (Eop : cur_op s = o) by (unfold cur_op; rewrite Esc; reflexivity).
+    assert (Ecmd : cur_is_cmd s = is_cmd_op o) by (unfold cur_is_cmd; rewrite Esc; destruct o; reflexivity).
+    set (ms := msgs_of (concat (cur_react s))) in *.
+    assert (Rs : forall s', a_script s' = a_script s -> spont s' = spont s -> filt s' = cur_fk s ->
+                   returned s' = returned s -> cmd_pc (a_pc s') = false -> Rside s').
+    { intros s' E1 E2 E3 E5 E6. destruct Hs. constructor; rewrite ?E1, ?E2, ?E3, ?E5, ?E6; auto. discriminate. }
+    assert (Fin : forall s', a_script s' = a_script s -> spont s' = spont s -> filt s' = cur_fk s ->
+                   returned s' = returned s -> cmd_pc (a_pc s') = false -> wait_phase (a_pc s') = true ->
+                   (W s' <= W s + wsum o ms)%nat -> Inv_R s').
+    { intros s' E1 E2 E3 E5 E6 E7 Hw. split; [apply Rs; auto|].
+      rewrite E5. intro Ho'. specialize (Hq Ho'). unfold waiting, cur_is_cmd. rewrite E7, E1. fold (cur_is_cmd s).
+      rewrite Ecmd. cbn [andb]. destruct (is_cmd_op o) eqn:Eo; [lia|]. specialize (Hzero eq_refl). lia. }
+    unfold v_next. fold ms. destruct ms as [|m0 rest] eqn:Ems.
+    + apply Fin; try reflexivity. rewrite <- Eop. w_tac; rewrite ?Epc; w_tac.
+    + apply Fin; try reflexivity. rewrite <- Eop. w_tac; rewrite ?Epc; w_tac.
   - (* VP *)
     destruct p; cbn [pstep fst snd]; unfold v_next; split_match; pcm s Epc H; rewrite ?Heql; w_tac.
-  - (* V3 *) pcm s Epc H.
+  - (* V3 *)
+    destruct (cur_is_cmd s) eqn:Ecmd; [pcm s Epc H; rewrite Ecmd; auto|].
+    match goal with |- Inv_R (a_finish _ ?s1) =>
+      apply (Inv_R_finish cfg s s1); [reflexivity|reflexivity|reflexivity|reflexivity| | |exact H] end.
+    + unfold upstream, inq_msgs, hand_w, hand_k, hand_r, hand_a; cbn; rewrite Epc.
+      destruct (a_begin cfg (tl (a_script s))) eqn:Eb; try reflexivity;
+        pose proof (a_begin_idle cfg (tl (a_script s))) as X; rewrite Eb in X; discriminate.
+    + unfold waiting. rewrite Ecmd. apply andb_false_r.
   - (* L1 *) destruct (legacy_lock cfg); pcm s Epc H.
   - (* L2 *) destruct (legacy_lock cfg); finm cfg s Epc H.
   - (* U1 *) destruct (lk s); auto. pcm s Epc H.
@@ -1215,7 +1237,7 @@ Lemma Inv_R_init : forall cfg script sp l0,
 Proof.
   intros cfg script sp l0 H1 H2. split.
   - constructor; unfold init; cbn; auto; [intros; discriminate | apply a_begin_cmd].
-  - intros _. unfold init. cbn [a_pc]. rewrite a_begin_idle.
+  - intros _. unfold waiting, init. cbn [a_pc]. rewrite a_begin_idle. cbn [andb].
     unfold W, upstream, inq_msgs, hand_w, hand_k, hand_r, hand_a. cbn.
     pose proof (a_begin_idle cfg script) as X.
     destruct (a_begin cfg script); try reflexivity; discriminate.
